@@ -366,7 +366,7 @@ fn case_reader(t: &[&str]) -> String {
     };
     format!(
         "res={} rlog={} out={} # allok={} dec={} ref={} faults={} consumed={}",
-        clip(rle(&run.res)),
+        rle(&run.res),
         clip(rle(&run.events)),
         bytes_sig(&run.out),
         all_ok as u8,
@@ -477,7 +477,7 @@ fn case_writer(t: &[&str]) -> String {
     let dec = if all_ok { decodes_to(&run.sink, &run.written) } else { "na" };
     format!(
         "res={} wlog={} sink={} # allok={} dec={} ref={} faults={} closed={}",
-        clip(rle(&run.res)),
+        rle(&run.res),
         clip(rle(&run.events)),
         bytes_sig(&run.sink),
         all_ok as u8,
@@ -721,14 +721,21 @@ fn spawn_worker() -> Child {
     Child { proc_: p, tx, rx }
 }
 fn supervisor() {
-    let secs: u64 = std::env::var("C11_WATCHDOG_SECS").ok().and_then(|x| x.parse().ok()).unwrap_or(60);
+    let secs: u64 = std::env::var("C11_WATCHDOG_SECS").ok().and_then(|x| x.parse().ok()).unwrap_or(30);
     let mut ch = spawn_worker();
     let stdin = io::stdin();
     let stdout = io::stdout();
     let mut out = io::BufWriter::new(stdout.lock());
+    // once a few cases have hung there is a failing input to report; do not spend the watchdog
+    // time on every further case of this shard (the check treats SKIPPED as "not run")
+    let mut hangs = 0usize;
     for line in stdin.lock().lines() {
         let line = line.unwrap();
         if line.trim().is_empty() {
+            continue;
+        }
+        if hangs >= 2 {
+            writeln!(out, "res=SKIPPED # hang budget of this shard exhausted").unwrap();
             continue;
         }
         let sent = writeln!(ch.tx, "{}", line).and_then(|_| ch.tx.flush());
@@ -745,6 +752,7 @@ fn supervisor() {
                 let died = matches!(ch.proc_.try_wait(), Ok(Some(_)));
                 let _ = ch.proc_.kill();
                 let _ = ch.proc_.wait();
+                hangs += 1;
                 writeln!(out, "res={} # watchdog", if died { "ABORT" } else { "HANG" }).unwrap();
                 ch = spawn_worker();
             }
